@@ -52,6 +52,28 @@ def st_soc(tier):
                 kind = draw(st.sampled_from(["storage", "storage", "status"]))
                 size = draw(st.one_of(st.integers(1, 32), st.integers(33, 70), st.sampled_from([32, 64, 33, 8])))
                 regs.append({"kind": kind, "size": size})
+                if draw(st.integers(0, 3)) == 0:
+                    # a register made of fields (published as OFFSET/SIZE macros and SVD bit ranges); fields end at, start at and
+                    # cross the CSR word boundary
+                    fl, bit = [], 0
+                    for fi in range(draw(st.integers(1, 4))):
+                        w_ = draw(st.sampled_from([1, 3, 5, 8, 12, 16, 20]))
+                        how = draw(st.integers(0, 5))
+                        if how == 0 and bit < 32 - w_:
+                            off = 32 - w_                  # ends exactly at the word boundary
+                        elif how == 1 and bit <= 32:
+                            off = 32                       # starts at it
+                        elif how == 2 and bit < 32 and 32 - bit < 20:
+                            off, w_ = bit, 32 - bit + draw(st.integers(1, 9))      # crosses it
+                        else:
+                            off = bit + draw(st.sampled_from([0, 0, 1, 4]))
+                        if off + w_ > 64:
+                            break
+                        fl.append(["f%d" % fi, w_, off])
+                        bit = off + w_
+                    if fl:
+                        regs[-1]["fields"] = fl
+                        regs[-1]["size"] = fl[-1][2] + fl[-1][1]
                 if kind == "storage" and draw(st.integers(0, 2)) == 0:
                     # the whole register changes at once, when the accessor's last word write arrives (the published sequence must end there)
                     regs[-1]["atomic"] = True
@@ -104,7 +126,7 @@ def _build(case):
     from litex.build.sim import SimPlatform
     from litex.soc.integration.soc_core import SoCCore
     from litex.soc.interconnect import wishbone
-    from litex.soc.interconnect.csr import AutoCSR, CSRStorage, CSRStatus, CSRConstant
+    from litex.soc.interconnect.csr import AutoCSR, CSRStorage, CSRStatus, CSRConstant, CSRField
     from litex.soc.interconnect.csr_eventmanager import EventManager, EventSourceLevel
     from migen import Signal
     plat = SimPlatform("SIM", io=[])
@@ -124,10 +146,11 @@ def _build(case):
         def __init__(self, spec, idx):
             self.regs = []
             for ri, r in enumerate(spec["regs"]):
+                fkw = {"fields": [CSRField(fn, size=fs, offset=fo) for fn, fs, fo in r["fields"]]} if r.get("fields") else {"size": r["size"]}
                 if r["kind"] == "storage":
-                    o = CSRStorage(r["size"], name="r%d" % ri, n=r.get("n"), atomic_write=bool(r.get("atomic")))
+                    o = CSRStorage(name="r%d" % ri, n=r.get("n"), atomic_write=bool(r.get("atomic")), **fkw)
                 else:
-                    o = CSRStatus(r["size"], name="r%d" % ri, n=r.get("n"))
+                    o = CSRStatus(name="r%d" % ri, n=r.get("n"), **fkw)
                 setattr(self, "r%d" % ri, o)
                 self.regs.append(o)
             if spec["mem"]:
@@ -226,6 +249,7 @@ def _parse_svd(text):
     import xml.etree.ElementTree as ET
     root = ET.fromstring(text.split("\n", 1)[1] if text.startswith("<?xml") else text)
     regs, irqs = {}, {}
+    fields = {}          # PERIPH -> {svd register name: [(field name, lsb, msb, bitRange text)]}
     for per in root.find("peripherals").findall("peripheral"):
         name = per.findtext("name")
         base = int(per.findtext("baseAddress"), 16)
@@ -234,6 +258,10 @@ def _parse_svd(text):
             d = r.findtext("description") or ""
             m = re.match(r"Bits? (\d+)(?:-(\d+))? of `(\w+)`", d)
             lst.append((r.findtext("name"), int(r.findtext("addressOffset"), 16), int(m.group(1)) if m else None, m.group(3) if m else None))
+            fl = r.find("fields")
+            for f_ in (fl.findall("field") if fl is not None else []):
+                fields.setdefault(name, {}).setdefault(r.findtext("name"), []).append((f_.findtext("name"), int(f_.findtext("lsb")), int(f_.findtext("msb")),
+                                                                                     f_.findtext("bitRange")))
         regs[name] = (base, lst)
         it = per.find("interrupt")
         if it is not None:
@@ -246,7 +274,7 @@ def _parse_svd(text):
             mems[m_.findtext("name")] = (int(m_.findtext("baseAddress"), 16), int(m_.findtext("size"), 16))
     for c in ve.find("constants").findall("constant"):
         consts[c.get("name")] = c.get("value")
-    return regs, irqs, mems, consts
+    return regs, irqs, mems, consts, fields
 
 
 def _k(case, base):
@@ -280,11 +308,52 @@ def _acc_pairs(name, r, hfuncs, busword):
     return sorted((r["addr"] + 4 * i, (r["size"] - 1 - i) * busword) for i in range(r["size"]))
 
 
+def _ranges(bits):
+    out, bits = [], sorted(bits)
+    for b in bits:
+        if out and out[-1][1] == b - 1:
+            out[-1][1] = b
+        else:
+            out.append([b, b])
+    return [tuple(x) for x in out]
+
+
 def _formats_more(case, soc, js, hdr, csv, hdefs, hfuncs, cls):
     """SVD, mem header, SoC header, linker regions against the JSON (whose addresses the simulation then visits)."""
     from litex.soc.integration import export
     busword = case["csr_dw"]
-    svd_regs, svd_irqs, svd_mems, svd_consts = _parse_svd(export.get_csr_svd(soc, description="x"))
+    svd_regs, svd_irqs, svd_mems, svd_consts, svd_fields = _parse_svd(export.get_csr_svd(soc, description="x"))
+    # -- fields: OFFSET/SIZE macros of the header and the bit ranges of the SVD against the fields the registers are made of
+    hoff = {m.group(1): int(m.group(2)) for m in re.finditer(r"#define (CSR_\w+)_OFFSET (\d+)", hdr)}
+    hsiz = {m.group(1): int(m.group(2)) for m in re.finditer(r"#define (CSR_\w+)_SIZE (\d+)", hdr)}
+    from migen import Memory as _Mem
+    for rname, region in soc.csr_regions.items():
+        if isinstance(region.obj, _Mem):
+            continue
+        for c in region.obj:
+            fl = list(c.fields.fields) if hasattr(c, "fields") else []
+            if not fl:
+                continue
+            nwords = (c.size + busword - 1) // busword
+            per = svd_fields.get(rname.upper(), {})
+            subs = [(c.name.upper(), 0)] if nwords == 1 else [((c.name + str(i)).upper(), i * busword) for i in range(nwords)]
+            for f in fl:
+                mac = "CSR_%s_%s_%s" % (rname.upper(), c.name.upper(), f.name.upper())
+                if (hoff.get(mac), hsiz.get(mac)) != (f.offset, f.size):
+                    return bad("formats", "field %s of %s_%s sits at bits [%d:%d] of the register; the header publishes offset %r size %r" %
+                               (f.name, rname, c.name, f.offset + f.size - 1, f.offset, hoff.get(mac), hsiz.get(mac)), key=_k(case, "c14:formats-field"), cls=cls)
+                bits = []
+                for sname, org in subs:
+                    for (fn, lsb, msb, br) in per.get(sname, []):
+                        if fn != f.name:
+                            continue
+                        if not (0 <= lsb <= msb < busword) or br != "[%d:%d]" % (msb, lsb):
+                            return bad("formats", "field %s of %s_%s (bits [%d:%d] of the register): the SVD lists it in %s with bitRange %s lsb %d msb %d" %
+                                       (f.name, rname, c.name, f.offset + f.size - 1, f.offset, sname, br, lsb, msb), key=_k(case, "c14:formats-field"), cls=cls)
+                        bits += list(range(org + lsb, org + msb + 1))
+                if sorted(bits) != list(range(f.offset, f.offset + f.size)):
+                    return bad("formats", "field %s of %s_%s sits at bits [%d:%d] of the register; the pieces the SVD publishes cover bits %r" %
+                               (f.name, rname, c.name, f.offset + f.size - 1, f.offset, _ranges(bits)), key=_k(case, "c14:formats-field"), cls=cls)
     # -- registers: every (address, bit origin) pair of the SVD must be the one the accessors use
     for name, r in js["csr_registers"].items():
         # the peripheral a register belongs to: a base name that prefixes it (a memory window "p0_win" also has a base, so
@@ -450,6 +519,12 @@ def run_soc(case):
     for n, (name, o) in enumerate(statuses):
         r = js["csr_registers"][name]
         val = uniq(100 + n, o.size)
+        if hasattr(o, "fields") and o.fields.fields:
+            # a status made of fields shows its field signals: only the bits fields cover can be non-zero
+            cover = 0
+            for f in o.fields.fields:
+                cover |= _m(f.size) << f.offset
+            val &= cover
         status_vals[name] = val
         acc = hfuncs.get((name, "read"))
         if acc:
@@ -505,7 +580,13 @@ def run_soc(case):
             plan.append(("rom", "rom", (word, _rom_word(word), romr), [len(ops)]))
             ops.append({"we": 0, "adr": (romr["base"] >> 2) + word, "dat": 0, "sel": 15, "gap": 1})
     master = wb.WBMaster(soc.tb, ops, max_wait=400)
-    drive = {o.status: status_vals[n] for n, o in statuses}
+    drive = {}
+    for n, o in statuses:
+        if hasattr(o, "fields") and o.fields.fields:
+            for f in o.fields.fields:
+                drive[getattr(o.fields, f.name)] = (status_vals[n] >> f.offset) & _m(f.size)
+        else:
+            drive[o.status] = status_vals[n]
     # interrupt lines: once the bus accesses are over (all event enables written), the event sources of one peripheral
     # at a time are raised and the CPU-side interrupt vector is sampled
     irqp = [(pi, soc.periphs[pi]) for pi, p_ in enumerate(case["periphs"]) if p_.get("ev") and case.get("irq")]
@@ -523,7 +604,10 @@ def run_soc(case):
         return d
     drv = bench.Driver(drv_fn)
     probe = bench.Probe([o.storage for _, o in storages])
-    agents = [master, drv, probe]
+    fsigs = [(name, f.name, getattr(o.fields, f.name)) for name, o in storages if hasattr(o, "fields") for f in o.fields.fields
+             if not getattr(f, "pulse", False)]          # pulse fields show their bits for one cycle only
+    fprobe = bench.Probe([sg for _, _, sg in fsigs])
+    agents = [master, drv, probe, fprobe]
     if irqp:
         iprobe = bench.Probe([soc.cpu.interrupt])
         agents.append(iprobe)
@@ -549,6 +633,21 @@ def run_soc(case):
                            "interrupt number %d, CPU interrupt vector reads %#x" % (ctx, pi, loc, iprobe.trace[c_][0]),
                            key="c14:irq", cls=cls, cycles=cyc)
     final = probe.trace[len(probe.trace) - 1 if not irqp else min(t0["t"], len(probe.trace) - 1)]
+    # the hardware's field signals hold the bits the header's OFFSET / SIZE macros name
+    ffinal = fprobe.trace[len(fprobe.trace) - 1 if not irqp else min(t0["t"], len(fprobe.trace) - 1)] if fsigs else []
+    written = {name: val for kind, name, val, idx in plan if kind == "storage"}
+    for k_, (name, fname, _) in enumerate(fsigs):
+        if name not in written:
+            continue
+        mac = "CSR_%s_%s" % (name.upper(), fname.upper())
+        mo, ms_ = re.search(r"#define %s_OFFSET (\d+)" % mac, hdr), re.search(r"#define %s_SIZE (\d+)" % mac, hdr)
+        if mo and ms_:
+            exp = (written[name] >> int(mo.group(1))) & _m(int(ms_.group(1)))
+            if ffinal[k_] != exp:
+                return bad("field", "%s: register %s written with %#x: field %s (published offset %s size %s) holds %#x in the hardware, "
+                           "the published bits are %#x" % (ctx, name, written[name], fname, mo.group(1), ms_.group(1), ffinal[k_], exp),
+                           key=_k(case, "c14:field"), cls=cls, cycles=cyc)
+            cls.append("fields")
     expected_final = {}
     multi = False
     for kind, name, val, idx in plan:
